@@ -487,7 +487,7 @@ Proof.
         destruct (repeater ctx (c :: r)) as [|kr nr|off] eqn:Rr.
         -- cbn [orelse] in E.
            destruct (white_space (c :: r)) as [|kw nw|off] eqn:Ww.
-           ++ destruct (lit (cquote ctx) (cattr ctx) (cexpr ctx) (cexpr ctx) prev false (c :: r)) as [[v nl] e].
+           ++ destruct (lit (cquote ctx) (cattr ctx) (Z.min (cexpr ctx) 1) (cexpr ctx) prev false (c :: r)) as [[v nl] e].
               destruct nl as [|nl].
               ** inversion E as [[E1 E2]]. clear E E2.
                  unfold operator, quote, bracket, orelse in E1.
